@@ -63,10 +63,36 @@ def _is_content(path) -> bool:
     return not any(path[0] == b for b in BOOKKEEPING)
 
 
+def _is_derived_private_state(ctx, cls, step: str) -> bool:
+    """`._x` of a template object that every constructor in the MRO initialises from constants only (an empty container, a literal):
+    state the object derives for itself, not part of the definition a caller handed in.  An attribute the constructors do not
+    initialise at all, or initialise from a parameter, is content."""
+    from engine.util import value_sources
+    if not (step.startswith("._") and not step.startswith(".__")):
+        return False
+    attr = step[1:]
+    inits = [c.methods["__init__"] for c in cls.mro if hasattr(c, "methods") and "__init__" in c.methods]
+    found = False
+    for init in inits:
+        for st in walk_shallow(init.node):
+            if isinstance(st, (ast.Assign, ast.AnnAssign)):
+                tgts = st.targets if isinstance(st, ast.Assign) else [st.target]
+                for t in tgts:
+                    if isinstance(t, ast.Attribute) and t.attr == attr and isinstance(t.value, ast.Name) and t.value.id == init.self_name:
+                        if st.value is None:
+                            continue
+                        found = True
+                        params, attrs, _calls = value_sources(ctx, init, st.value)
+                        if (set(params) - {init.self_name}) or any(a.startswith(init.self_name + ".") for a in attrs):
+                            return False
+    return found
+
+
 def check_entry(ctx, rid, f, variant, protected=None):
     eff = ctx.effects
     evs = eff.events_of(f, variant if variant in eff.variants(f) else None)
     bad = []
+    derived = []
     for e in evs:
         o = e.origin
         if o[0] != "P":
@@ -79,7 +105,13 @@ def check_entry(ctx, rid, f, variant, protected=None):
             # arguments of methods: only template-typed parameters are protected; plain dict/list arguments are the caller's
             continue
         if _is_content(o[2]):
+            if f.cls is not None and o[1] == f.self_name and _is_derived_private_state(ctx, f.cls, o[2][0]):
+                derived.append(e)
+                continue
             bad.append(e)
+    for e in derived[:1]:
+        ctx.info(rid, f, e.stmt, f"writes the private attribute `{e.origin[2][0]}`, which the constructor initialises from constants only (derived "
+                                 f"state, not template content)", label=f"{f.qualname} derived state {e.origin[2][0]}")
     label = f"{f.qualname}" + ("" if variant is None else f" [in_place={variant}]")
     if not bad:
         ctx.ok(rid, f, f.node, "no mutation of template content reachable from its arguments (transitive effect summary empty)",
